@@ -144,6 +144,12 @@ func TestProp(t *testing.T) {
 					pf = append(pf, progen.PtrTo(pf[0]))
 					out = append(out, e2.Carrier(env, "WP", pf...))
 				}
+				// a struct of basic fields with padding, by pointer: whatever shortcut the printer takes for structs
+				// without references, a blank field cannot be written in a composite literal
+				pad := &progen.Decl{Name: "WPad", IsStruct: true, Fields: []progen.Field{{Name: "Version", Type: progen.B("uint8")},
+					{Name: "_", Type: progen.ArrayOf(3, progen.B("byte"))}, {Name: "Length", Type: progen.B("uint32")}, {Name: "Name", Type: progen.B("string")}}}
+				env.Structs = append(env.Structs, pad)
+				out = append(out, progen.PtrTo(progen.NamedT(pad)), progen.SliceOf(progen.PtrTo(progen.NamedT(pad))))
 				// the idiom of the documentation: a struct whose GoString method (pointer receiver) is the derived
 				// function, held by value, by pointer and as an element elsewhere
 				if len(env.Structs) > 0 && rapid.Bool().Draw(rt, "self-printing") {
